@@ -92,4 +92,162 @@ example : toQ (neg 2 false ⟨2, 2, 1, [3, 5]⟩) = -(5 + 3 / (B : ℚ)) := by
 example : set 2 ⟨9, -4, 7, [1, 2, 3, 4]⟩ = ⟨2, -3, 7, [2, 3, 4]⟩ := by decide
 example : Mpf.abs 2 true ⟨2, -2, 1, [3, 5]⟩ = ⟨2, 2, 1, [3, 5]⟩ := by decide
 
+
+/-! ### exact functions: mul_2exp, div_2exp -/
+
+/-- mpf_mul_2exp is exact on a stored value of at most prec limbs (prec+1 when the shift is a whole number
+    of limbs).  (A (prec+1)-limb value shifted by a non-multiple of 64 loses its lowest limb: mul_2exp.c:102.) -/
+theorem mul_2exp_exact (prec : Nat) (u : F) (e : Nat) (hu : OpWF u)
+    (hlen : if e % 64 = 0 then u.d.length ≤ prec + 1 else u.d.length ≤ prec) :
+    toQ (mul_2exp prec u e) = toQ u * 2 ^ e := by
+  unfold mul_2exp
+  by_cases h0 : u.size = 0
+  · rw [if_pos h0, toQ_zero, toQ_of_size_zero (hu.d_nil h0)]; simp
+  rw [if_neg h0]
+  by_cases he : e % 64 = 0
+  · rw [if_pos he] at hlen ⊢
+    simp only [top_of_le hlen]
+    rw [toQ_mk, toQ_def', two_pow_split e, he,
+      show u.exp + ((e / 64 : ℕ) : ℤ) - (u.d.length : ℤ) = u.exp - (u.d.length : ℤ) + ((e / 64 : ℕ) : ℤ) by ring,
+      Bzpow_add_nat]
+    ring
+  · rw [if_neg he] at hlen ⊢
+    simp only [top_of_le hlen]
+    have hne : u.d ≠ [] := by
+      intro h; exact h0 (by have := hu.2.1; rw [h] at this; simp at this; omega)
+    obtain ⟨_, _, s3, _, s5⟩ := shiftUp_spec u.d (e % 64) hu.1 hne hu.2.2.1 (Nat.mod_lt _ (by norm_num))
+    generalize shiftUp u.d (e % 64) = r at *
+    obtain ⟨rd, adj⟩ := r
+    simp only at s3 s5 ⊢
+    rw [toQ_mk, toQ_def', s5, s3, two_pow_split e]
+    generalize e / 64 = m
+    push_cast
+    rw [show u.exp + (m : ℤ) + (adj : ℤ) - ((u.d.length : ℤ) + (adj : ℤ))
+          = u.exp - (u.d.length : ℤ) + (m : ℤ) by ring, Bzpow_add_nat]
+    ring
+
+/-- mpf_div_2exp, same conditions. -/
+theorem div_2exp_exact (prec : Nat) (u : F) (e : Nat) (hu : OpWF u)
+    (hlen : if e % 64 = 0 then u.d.length ≤ prec + 1 else u.d.length ≤ prec) :
+    toQ (div_2exp prec u e) = toQ u / 2 ^ e := by
+  unfold div_2exp
+  by_cases h0 : u.size = 0
+  · rw [if_pos h0, toQ_zero, toQ_of_size_zero (hu.d_nil h0)]; simp
+  rw [if_neg h0]
+  by_cases he : e % 64 = 0
+  · rw [if_pos he] at hlen ⊢
+    simp only [top_of_le hlen]
+    rw [toQ_mk, toQ_def', two_pow_split e, he,
+      show u.exp - ((e / 64 : ℕ) : ℤ) - (u.d.length : ℤ) = u.exp - (u.d.length : ℤ) - ((e / 64 : ℕ) : ℤ) by ring,
+      Bzpow_sub_nat]
+    field_simp
+  · rw [if_neg he] at hlen ⊢
+    simp only [top_of_le hlen]
+    have hne : u.d ≠ [] := by
+      intro h; exact h0 (by have := hu.2.1; rw [h] at this; simp at this; omega)
+    have hc : e % 64 < 64 := Nat.mod_lt _ (by norm_num)
+    obtain ⟨_, _, s3, _, s5⟩ := shiftUp_spec u.d (64 - e % 64) hu.1 hne hu.2.2.1 (by omega)
+    generalize shiftUp u.d (64 - e % 64) = r at *
+    obtain ⟨rd, adj⟩ := r
+    simp only at s3 s5 ⊢
+    rw [toQ_mk, toQ_def', s5, s3, two_pow_split e]
+    generalize e / 64 = m
+    have h64 : (2 : ℚ) ^ (64 * (m + 1)) = 2 ^ (64 - e % 64) * (2 ^ (e % 64) * 2 ^ (64 * m)) := by
+      rw [← pow_add, ← pow_add]; congr 1; omega
+    push_cast
+    rw [show u.exp - (m : ℤ) - 1 + (adj : ℤ) - ((u.d.length : ℤ) + (adj : ℤ))
+          = u.exp - (u.d.length : ℤ) - ((m + 1 : ℕ) : ℤ) by push_cast; ring, Bzpow_sub_nat, h64]
+    field_simp
+
+-- non-vacuity: 1.5 * 2^3 = 12 and 12 / 2^67 (sub-limb shift with a carry-out limb)
+example : mul_2exp 2 ⟨2, 2, 1, [B / 2, 1]⟩ 3 = ⟨2, 2, 1, [0, 12]⟩ := by decide
+example : div_2exp 2 ⟨2, 1, 1, [12]⟩ 67 = ⟨2, 2, 0, [B / 2, 1]⟩ := by decide
+
+
+/-! ### exact functions: floor, ceil, trunc, integer_p
+
+`hfit`: the integer part (min(|size|, exp) limbs) fits in the destination's prec+1 limbs; otherwise
+ceilfloor.c / trunc.c keep only the top prec+1 limbs of it. -/
+
+/-- mpf_floor returns exactly ⌊u⌋. -/
+theorem floor_spec (prec : Nat) (u : F) (hu : OpWF u) (hfit : min u.d.length u.exp.toNat ≤ prec + 1) :
+    toQ (floor prec u) = (⌊toQ u⌋ : ℤ) := by
+  by_cases h0 : u.size = 0
+  · unfold floor ceilOrFloor; rw [if_pos h0, toQ_zero, toQ_of_size_zero (hu.d_nil h0)]; simp
+  obtain ⟨I, f, f0, f1, hq, _, hr, _⟩ := round_decomp prec u hu h0 hfit (-1) (Or.inr rfl)
+  unfold floor; rw [hr, hq]
+  by_cases hs : u.size < 0
+  · have : sg u = -1 := by unfold sg; rw [if_pos hs]
+    rw [this, neg_one_mul, neg_one_mul, Int.floor_neg, ceil_nat_add I f f0 f1]
+    by_cases hf : f = 0 <;> simp [hs, hf]
+  · have : sg u = 1 := by unfold sg; rw [if_neg hs]
+    rw [this, one_mul, one_mul, floor_nat_add I f f0 f1]; simp [hs]
+
+/-- mpf_ceil returns exactly ⌈u⌉. -/
+theorem ceil_spec (prec : Nat) (u : F) (hu : OpWF u) (hfit : min u.d.length u.exp.toNat ≤ prec + 1) :
+    toQ (ceil prec u) = (⌈toQ u⌉ : ℤ) := by
+  by_cases h0 : u.size = 0
+  · unfold ceil ceilOrFloor; rw [if_pos h0, toQ_zero, toQ_of_size_zero (hu.d_nil h0)]; simp
+  obtain ⟨I, f, f0, f1, hq, _, hr, _⟩ := round_decomp prec u hu h0 hfit 1 (Or.inl rfl)
+  unfold ceil; rw [hr, hq]
+  by_cases hs : u.size < 0
+  · have : sg u = -1 := by unfold sg; rw [if_pos hs]
+    rw [this, neg_one_mul, neg_one_mul, Int.ceil_neg, floor_nat_add I f f0 f1]; simp [hs]
+  · have : sg u = 1 := by unfold sg; rw [if_neg hs]
+    rw [this, one_mul, one_mul, ceil_nat_add I f f0 f1]
+    by_cases hf : f = 0 <;> simp [hs, hf]
+
+/-- mpf_trunc rounds towards zero: ⌊u⌋ for u ≥ 0, ⌈u⌉ for u < 0. -/
+theorem trunc_spec (prec : Nat) (u : F) (hu : OpWF u) (hfit : min u.d.length u.exp.toNat ≤ prec + 1) :
+    toQ (trunc prec u) = if 0 ≤ toQ u then ((⌊toQ u⌋ : ℤ) : ℚ) else ((⌈toQ u⌉ : ℤ) : ℚ) := by
+  by_cases h0 : u.size = 0
+  · unfold trunc; rw [if_pos (Or.inl h0), toQ_zero, toQ_of_size_zero (hu.d_nil h0)]; simp
+  obtain ⟨I, f, f0, f1, hq, ht, _, _⟩ := round_decomp prec u hu h0 hfit 1 (Or.inl rfl)
+  rw [ht, hq]
+  have hnn : (0 : ℚ) ≤ (I : ℚ) + f := by positivity
+  by_cases hs : u.size < 0
+  · have : sg u = -1 := by unfold sg; rw [if_pos hs]
+    rw [this, neg_one_mul, neg_one_mul, Int.ceil_neg, Int.floor_neg, floor_nat_add I f f0 f1, ceil_nat_add I f f0 f1]
+    by_cases hz : (0 : ℚ) ≤ -((I : ℚ) + f)
+    · have hIf : (I : ℚ) + f = 0 := by linarith
+      have hf : f = 0 := by
+        have : (0 : ℚ) ≤ (I : ℚ) := by positivity
+        linarith
+      rw [if_pos hz]; simp [hf]
+    · rw [if_neg hz]; simp
+  · have : sg u = 1 := by unfold sg; rw [if_neg hs]
+    rw [this, one_mul, one_mul, if_pos hnn, floor_nat_add I f f0 f1]; simp
+
+/-- mpf_integer_p answers whether the stored value is an integer (no condition on lengths). -/
+theorem integer_p_iff (u : F) (hu : OpWF u) : integer_p u = true ↔ ∃ z : ℤ, toQ u = z := by
+  by_cases h0 : u.size = 0
+  · unfold integer_p; rw [if_pos h0, toQ_of_size_zero (hu.d_nil h0)]
+    exact ⟨fun _ => ⟨0, by simp⟩, fun _ => rfl⟩
+  obtain ⟨I, f, f0, f1, hq, _, _, hi⟩ := round_decomp (u.d.length) u hu h0 (by omega) 1 (Or.inl rfl)
+  rw [hi, hq]
+  have hsg : sg u = 1 ∨ sg u = -1 := by unfold sg; by_cases hs : u.size < 0 <;> simp [hs]
+  constructor
+  · intro hf; subst hf
+    rcases hsg with h | h <;> rw [h]
+    · exact ⟨I, by simp⟩
+    · exact ⟨-I, by simp⟩
+  · rintro ⟨z, hz⟩
+    -- f = ±z - I is an integer in [0,1)
+    have hfz : ∃ w : ℤ, f = w := by
+      rcases hsg with h | h <;> rw [h] at hz
+      · exact ⟨z - I, by push_cast; linarith⟩
+      · exact ⟨-z - I, by push_cast; linarith⟩
+    obtain ⟨w, hw⟩ := hfz
+    rw [hw] at f0 f1 ⊢
+    have h1 : (0 : ℤ) ≤ w := by exact_mod_cast f0
+    have h2 : w < 1 := by exact_mod_cast f1
+    have : w = 0 := by omega
+    simp [this]
+
+-- non-vacuity: floor(-5.xx) = -6 ; ceil(…ff.3) carries into a new limb ; 5.0 with a low zero limb is an integer
+example : floor 2 ⟨2, -2, 1, [3, 5]⟩ = ⟨2, -1, 1, [6]⟩ := by decide
+example : ceil 2 ⟨2, 2, 1, [3, B - 1]⟩ = ⟨2, 1, 2, [1]⟩ := by decide
+example : trunc 2 ⟨2, -2, 1, [3, 5]⟩ = ⟨2, -1, 1, [5]⟩ := by decide
+example : integer_p ⟨2, 2, 1, [0, 5]⟩ = true ∧ integer_p ⟨2, 2, 1, [3, 5]⟩ = false := by decide
+
 end Mpir.Mpf
